@@ -186,6 +186,10 @@ class Ptychography(PtychographyOpt, PtychographyVisualizations, PtychographyBase
             self.optimizer_params = optimizer_params
             self.set_optimizers()
             new_scheduler = True
+        elif reset:
+            # reset_recon() attached schedulers to the optimizers it rebuilt, and LinearLR / CyclicLR
+            # rescale the lr on construction: start the schedulers below from fresh optimizers
+            self.set_optimizers()
 
         if scheduler_params is not None:
             self.scheduler_params = scheduler_params
